@@ -124,11 +124,13 @@ def replay_relax(model, cls="SinglePhaseReservoir", nx=3):
 
 # ------------------------------------------------------------------ symbolic runs
 
-def _sim(mod, cls, nx, nt, schedule, policy, const_drawdown=True):
+def _sim(mod, cls, nx, nt, schedule, policy, const_drawdown=True, tdtype="f8"):
     """Run the real simulate once; returns (reservoir, fluid, time array, m_f list)."""
     SS.LinSolve.reset(policy)
     SS.reset_names()
     t, _ = times(nt)
+    if tdtype != "f8":
+        t = SymArray(list(t.d), tdtype)
     if cls == "IdealReservoir":
         res = mod.IdealReservoir(Q(nx), fresh("pf"), fresh("pi", pos=True), None)
         res.simulate(t)
@@ -228,6 +230,45 @@ def job_bounds(job, cls, nx, schedule):
         job.prove(f"{tag}/step: an arbitrary level inside the bounds stays inside[path{k}]", pr.pc + [_outside(rows[2], lo, hi)],
                   bound=f"nx={nx}, any dt>0, any level", replay=rp3)
         job.prove(f"{tag}/step/reach[path{k}]", pr.pc, expect="sat")
+
+
+def replay_inttime(model, nx=3):
+    """Real run on an integer-dtype time grid (whole days, large steps) with a frac-face pressure that is not an
+    integer and close to the initial pressure: every level must stay at or above the frac-face pseudopressure."""
+    import numpy as np
+    from bluebonnet.flow import reservoir as rr
+    from .c04 import _real_fluid
+    fluid = _real_fluid()
+    pf = 7990.6
+    res = rr.SinglePhaseReservoir(max(nx, 8), pf, 8000.0, fluid)
+    t = np.arange(0, 40) * 50
+    res.simulate(t)
+    pp = np.asarray(res.pseudopressure, float)
+    m_f, m_i = float(fluid.m_scaled_func(pf)), float(fluid.m_i)
+    lowest = float(pp.min())
+    bad = lowest < m_f - 1e-9 * m_i
+    return bad, {"what": f"SinglePhaseReservoir on the integer time grid {t[:4].tolist()}.. ({t.dtype}), p_f={pf}, p_i=8000: lowest simulated value {lowest!r} "
+                         f"vs frac-face pseudopressure {m_f!r} (below it by {(m_f - lowest) / (m_i - m_f):.1%} of the drawdown)", "inputs": {}}
+
+
+def job_bounds_inttime(job, nx):
+    """The bounds must not depend on the dtype of the time grid (whole days passed as an integer array)."""
+    job.solve_defaults = {"abstract": True}
+    mod = load_reservoir()
+    cls = "SinglePhaseReservoir"
+    job.encoded(mod, f"{cls}.simulate")
+    tag = f"{cls}[nx={nx},scalar,integer time grid]"
+    rp = (replay_inttime, {"nx": nx})
+    for k, pr in enumerate(paths(job, lambda: _sim(mod, cls, nx, 2, False, policy_exact(), tdtype="i8"), [], max_paths=16)):
+        if pr.exc is not None:
+            job.errors.append(f"{tag} base raised {pr.exc!r}")
+            continue
+        r, fluid, t, mf = pr.value
+        rows = rows_of(r)
+        lo, hi = _lo_hi(fluid, mf, 1)
+        job.prove(f"{tag}/base: level 1 within [frac-face value, initial][path{k}]", pr.pc + [_outside(rows[1], lo, hi)],
+                  bound=f"nx={nx}, any dt>0, int64 time grid", replay=rp)
+        job.prove(f"{tag}/reach[path{k}]", pr.pc, expect="sat")
 
 
 def job_space(job, cls, nx):
@@ -395,6 +436,7 @@ def jobs(tier):
             out.append((f"time-{cls[:6]}-{nx}", lambda j, c=cls, n=nx: job_time(j, c, n)))
         for nx in ((3, 4) if tier == "quick" else (3, 4, 6, 8)):
             out.append((f"fixed-{cls[:6]}-{nx}", lambda j, c=cls, n=nx: job_fixed_point(j, c, n)))
+    out.append(("bounds-inttime-3", lambda j: job_bounds_inttime(j, 3)))
     for nx in ((3, 5, 8) if tier == "quick" else (3, 4, 5, 6, 7, 8, 12, 20)):
         out.append((f"matrix-{nx}", lambda j, n=nx: job_matrix(j, n)))
     return out
